@@ -9,7 +9,7 @@ from concurrent.futures import ThreadPoolExecutor
 from multiprocessing import Pool
 
 from .constants import limbs
-from .core import Ctx, MachineryError, NCPU
+from .core import Ctx, Guarded, MachineryError, NCPU
 
 MODS = {
     "bn": (("bn128", "py_ecc.bn128", "ref"), ("optimized_bn128", "py_ecc.optimized_bn128", "opt")),
@@ -217,7 +217,7 @@ def run_traces(ctx: Ctx, curves=("bn", "bls")):
     parts = 3 if ctx.tier == "quick" else 8
     jobs = [(c, k, ctx.seed + 300 + 31 * k + (7 if c == "bn" else 0), ctx.tier) for c in curves for k in range(parts)]
     with Pool(min(NCPU, len(jobs))) as pool:
-        traces = pool.map(build, jobs, chunksize=1)
+        traces = pool.map(Guarded(build), jobs, chunksize=1)
     ctx.log(f"pairing traces: {len(traces)} traces, {sum(len(t['events']) for t in traces)} events, "
             f"{sum(1 for t in traces for e in t['events'] if e['op'] in ('pair', 'prepair'))} pairings of the real modules")
 
